@@ -8,6 +8,7 @@ import (
 	"io"
 	"net/url"
 	"path/filepath"
+	"sort"
 	"strings"
 
 	"github.com/valyala/fastjson"
@@ -365,15 +366,13 @@ func irisEqual(i1, i2 IRI, checkScheme bool) bool {
 		if len(uqv) != len(uwqv) {
 			return false
 		}
-		for _, uqvv := range uqv {
-			eq := false
-			for _, uwqvv := range uwqv {
-				if uwqvv == uqvv {
-					eq = true
-					continue
-				}
-			}
-			if !eq {
+		// NOTE(marius): the values of a repeated parameter are compared as a multiset
+		uqv = append([]string(nil), uqv...)
+		uwqv = append([]string(nil), uwqv...)
+		sort.Strings(uqv)
+		sort.Strings(uwqv)
+		for i := range uqv {
+			if uqv[i] != uwqv[i] {
 				return false
 			}
 		}
